@@ -39,6 +39,8 @@ add("C20", "exhaustive enumeration of the argument groups vs a reference predica
     "No sampling: all presence patterns of the 7 graph sources x 5 target arguments, every single source x valid target x compression x format x examples mode x or-flags, and all threshold x output format x sink combinations are enumerated; raise/no-raise and exception type are compared with a ten-line reference predicate, and every accepted configuration must complete a real extraction (no deferral).", "DESIGN.md 2/C20")
 add("C18", "Hypothesis-generated call histories (model-based): every step on one Shaper vs a fresh Shaper with freshly copied arguments",
     "Histories of <=3 operations (shex_graph with format/sink/threshold, profile_graph, construction of another Shaper sharing the namespaces dict) are generated and shrunk as one value; after every step the observed text/file must equal what a fresh object returns for that single call; outputs above 5 000 and 10 000 lines exercise the buffer flush.", "DESIGN.md 2/C18")
+add("C17", "Hypothesis generators (IRI families with shared/unshared segments) + recomputation oracle for stems and examples + metamorphic relation",
+    "Stems are recomputed as the longest common prefix of the instance IRIs cut back to the last separator; examples must be actual instances / values; the constraints must equal those of a run without the two options.", "DESIGN.md 2/C17")
 
 ALL = ["C%02d" % i for i in range(1, 21)]
 def main():
